@@ -160,6 +160,9 @@ def replay(tree, inputs, reg0=0, regd0=0, mem0=None):
         tags, used = elaborate(tree)
     except pyrtl.PyrtlError as e:
         return dict(failed=False, observed='rejected: %s' % str(e)[:80], expected='-')
+    except Exception as e:
+        return dict(failed=True, observed='%s: %s' % (type(e).__name__, str(e)[:120]),
+                    expected='elaborates, or PyrtlError')
     block = pyrtl.working_block()
     mem = [n.op_param[1] for n in block.logic if n.op in 'm@'][0]
     bn = block.wirevector_by_name
